@@ -47,23 +47,27 @@ def run_case(case, chooser=None):
     src, dst = case["src"], case["dst"]
     msg = H.pattern(case["mlen"], case.get("seed", 0), salt=7)
     decided = {}
+    last_data = {}
 
     delay = case.get("first_hop_delay_ms", 0) * MS  # the first hop is deaf for so long after the call starts
 
     def fault(pkt):
         if pkt.is_ack:
-            return False
+            # fault kind 2 (case["ack_faults"]): every hardware ACK of that frame hop is lost - the frame is
+            # delivered, its sender sees a failed transmission
+            return decided.get(last_data.get(pkt.addr)) == 2
         if delay and pkt.src.name == net.radios[src].name and "t0" in obs and pkt.start < obs["t0"] + delay:
             return True
         if chooser is None:
             return False
         key = (pkt.src.name, pkt.addr, pkt.payload)
+        last_data[pkt.addr] = key
         d = decided.get(key)
         if d is None:
             f = N.parse_frame(pkt.payload)
             label = "hop:%s:%s" % (pkt.src.name, f["type"] if f else "raw")
-            d = decided[key] = bool(chooser.choose(2, label))
-        return d
+            d = decided[key] = chooser.choose(3 if case.get("ack_faults") else 2, label)
+        return d == 1
     obs = {"ret": "unset"}
     w.fault = fault
 
@@ -97,6 +101,7 @@ def run_case(case, chooser=None):
     heard_nack = set()  # radios that have received a NETWORK_ACK of this message so far
     seen_tx = set()
     delivered_to_dst = False
+    delivered_known = False
     for p in air:
         if p.is_ack:
             continue
@@ -108,6 +113,8 @@ def run_case(case, chooser=None):
         is_msg = f["to"] == dst and f["from"] == src and f["type"] == (case["mtype"] & 0xFF) and f["msg"] == msg
         if is_msg and dname in p.heard_by:
             delivered_to_dst = True
+        if is_msg and p.acked and (dname in p.heard_by or dname + ":dup" in p.heard_by):
+            delivered_known = True  # ... and the delivering node's radio saw an acknowledgement (possibly of a retransmission)
         if f["type"] == 193 and not is_msg:
             key = (p.src.name, p.payload)
             if key not in seen_tx:
@@ -123,7 +130,8 @@ def run_case(case, chooser=None):
     obs["nack_heard"] = nack_heard
     obs["originators"] = originators
     obs["delivered"] = delivered_to_dst
-    obs["faults"] = [k[0] for k, v in decided.items() if v]
+    obs["delivered_known"] = delivered_known and delivered_to_dst
+    obs["faults"] = [k[0] + (":ack" if v == 2 else "") for k, v in decided.items() if v]
     obs["nchoices"] = len(chooser.trace) if chooser else 0
     return obs
 
@@ -143,7 +151,9 @@ def judge(case, obs, pid=PID):
     for key, e in obs["exc"].items():
         v.append(("%s/exception:%s:%s" % (pid, e.split(":")[0], shape), "node %o raised %s" % (key, e)))
     # (1) who originates NETWORK_ACKs
-    expect_nack = 1 if (ack_t and hops > 1 and not multicast and obs["delivered"]) else 0
+    # ("delivers" = its transmission to the destination was acknowledged; without hardware-ACK faults that is the same
+    # as "the destination's radio received it")
+    expect_nack = 1 if (ack_t and hops > 1 and not multicast and obs["delivered_known"]) else 0
     orig = obs["originators"]
     if len(orig) != expect_nack:
         v.append(("%s/nack-count-%d-expected-%d:%s" % (pid, min(len(orig), 2), expect_nack, shape),
@@ -311,13 +321,22 @@ def build_items(tier, seed):
                 for tm in timings:
                     k += 1
                     if tier == "quick":
-                        b = 1
+                        b = 2 if hops <= 4 else 1
                         cost, lat = (0 if k % 3 else 2), (0 if k % 2 else 2)
                     else:
                         cost, lat = tm
                         b = (3 if hops <= 3 else 2) if tm == (0, 0) else (2 if hops <= 4 else 1)
                     items.append(([dict(src=s, dst=d, mtype=t, mlen=(k * 5) % 25, tmo=list(tmo), cost=cost, lat=lat,
                                         seed=seed, id0=(k * 977) & 0xFFFF, max_execs=20000)], b))
+    # third fault kind: every hardware ACK of a frame hop lost (frame delivered, its sender sees a failure)
+    for (s, d) in ROUTES:
+        hops = len(N.tree_path(s, d)) - 1
+        for tmo in (TIMEOUTS[:1] if tier == "quick" else TIMEOUTS[:2]):
+            for t in ((65, 1) if tier == "quick" else (65, 127, 1, 191, 192)):
+                k += 1
+                b = 1 if tier == "quick" else (2 if hops <= 6 else 1)
+                items.append(([dict(src=s, dst=d, mtype=t, mlen=(k * 5) % 25, tmo=list(tmo), cost=0, lat=0, seed=seed, id0=(k * 977) & 0xFFFF,
+                                    max_execs=20000, ack_faults=True)], b))
     # all 256 types on a 2-hop route (loss-free + every single failure point; thorough: + pairs, 2 more routes)
     for (s, d) in ((O("1"), O("2")),) + (((O("11"), O("0")), (O("0"), O("22"))) if tier == "thorough" else ()):
         for t0 in range(0, 256, 8):
@@ -362,13 +381,14 @@ def run(tier, seed, rep, only=None):
         level="fault_enumeration",
         exhaustive=True,
         rule="per frame hop (one node transmitting one network frame to its next hop, all its radio-level retransmissions included) the environment "
-             "chooses delivered / lost for good; the loss-free execution plus EVERY single failure point (thorough: every pair on routes <= 4 hops) of "
+             "chooses delivered / lost for good (/ delivered but all its hardware ACKs lost, in the ack_faults cases); the loss-free execution plus EVERY single failure point (thorough: every pair on routes <= 4 hops) of "
              "each (route, type, timeout setting) case is executed with all nodes running the real code. Non-trivial = distinct (case, failure set).",
         bounds=dict(routes=["%o->%o" % r for r in ROUTES], timeouts=[list(t) for t in TIMEOUTS], all_256_types_on="1->2 (2 hops)",
-                    failure_points_per_execution="1" if tier == "quick" else "3 on routes <= 3 hops, 2 elsewhere (1 on 8-hop routes in the non-default timing classes)"),
+                    failure_points_per_execution="2 on routes <= 4 hops, 1 elsewhere and in the ack_faults / all-types parts" if tier == "quick" else "3 on routes <= 3 hops, 2 elsewhere (1 on 8-hop routes in the non-default timing classes)"),
         trusted_base=["vf/sim.py", "vf/net.py"],
         assumptions=["cross-traffic part (two origins, the second one's NETWORK_ACK routed through the first): only the safety clause True => own NETWORK_ACK arrived, exceptions and termination are judged",
-                     "a lost frame hop stays lost (every retransmission of that frame by that node is dropped); hardware ACKs are not dropped here (C02 covers ACK loss)",
+                     "a lost frame hop stays lost (every retransmission of that frame by that node is dropped); in the ack_faults cases the environment may instead drop every hardware ACK of a frame hop "
+                     "(frame delivered, sender sees a failed transmission) - there 'the node that delivers' means the node whose radio saw the acknowledgement of the delivery",
                      "NETWORK_ACK arrival within +-3 ms of the route_timeout deadline accepts either return value"],
         min_outcomes=6,
     )
